@@ -274,6 +274,8 @@ def _mk():
     add("set_step", "uf.set_slice({m}, {0}, slice(None, None, 2), -2.0)", cond=NE + " and a0.dtype.kind=='f'", fam="inplace", rewrite=False)
     add("set_step_arr", "uf.set_slice({m}, {0}, slice(1, None, 2), np.arange(len(range(1, {0}.shape[0], 2)), dtype=float).reshape((-1,) + (1,) * ({0}.ndim - 1)) * np.ones({0}.shape[1:]) + 100)", cond=NE + " and a0.dtype.kind=='f' and a0.shape[0]>=2", fam="inplace", rewrite=False)
     add("set_step3_arr", "uf.set_slice({m}, {0}, slice(0, None, 3), np.arange(len(range(0, {0}.shape[0], 3)), dtype=float).reshape((-1,) + (1,) * ({0}.ndim - 1)) * np.ones({0}.shape[1:]) + 200)", cond=NE + " and a0.dtype.kind=='f'", fam="inplace", rewrite=False)
+    add("set_daskval", "uf.set_slice({m}, {0}, slice(0, 2), {0}[2:4] * 3)", cond="a0.ndim>=1 and a0.shape[0]>=4", fam="inplace", rewrite=False)
+    add("set_daskval_mb", "uf.set_slice({m}, {0}, slice(0, 2), uf.mb_or_np({m}, {0}[2:4]))", cond="a0.ndim>=1 and a0.shape[0]>=4", fam="inplace", rewrite=False)
     add("set_int", "uf.set_slice({m}, {0}, -1, 7.0)", cond=NE + " and a0.dtype.kind=='f'", fam="inplace", rewrite=False)
     add("set_list", "uf.set_slice({m}, {0}, [0, -1], 5.0)", cond=NE + " and a0.dtype.kind=='f'", fam="inplace", rewrite=False)
     add("set_mask", "uf.set_slice({m}, {0}, {0} > 12, 0.0)", cond=NE + " and a0.dtype.kind=='f' and a0.ndim==1", fam="inplace", rewrite=False)
